@@ -33,10 +33,11 @@ pub fn parse_records(s: &str) -> Vec<Record> {
 }
 
 // ---------- in-process ----------
-struct MemReader { samples: Vec<Sample>, recs: Vec<Vec<genotype::Result>>, pos: usize }
+struct MemReader { samples: Vec<Sample>, recs: Vec<Vec<genotype::Result>>, sites: Vec<(String, usize)>, pos: usize }
 impl genotype::Reader for MemReader {
-    fn current_contig(&self) -> &str { "mem" }
-    fn current_position(&self) -> usize { self.pos }
+    // contig and position of the record read last, as the VCF / BCF readers report them (positions may repeat)
+    fn current_contig(&self) -> &str { if self.pos == 0 { "mem" } else { &self.sites[self.pos - 1].0 } }
+    fn current_position(&self) -> usize { if self.pos == 0 { 0 } else { self.sites[self.pos - 1].1 } }
     fn read_genotypes(&mut self) -> ReadStatus<Vec<genotype::Result>> {
         if self.pos < self.recs.len() { self.pos += 1; ReadStatus::Read(self.recs[self.pos - 1].clone()) } else { ReadStatus::Done }
     }
@@ -56,7 +57,7 @@ pub fn eval_mem(a: &[&str]) -> Option<String> {
     let samples = parse_samples(a[1]);
     let project = parse_project(a[2]);
     let recs = parse_records(a[3]);
-    let mem = MemReader { samples: cols.iter().map(Sample::from).collect(), pos: 0,
+    let mem = MemReader { samples: cols.iter().map(Sample::from).collect(), pos: 0, sites: recs.iter().map(|r| (r.contig.clone(), r.pos)).collect(),
         recs: recs.iter().map(|r| r.gts.iter().map(|g| code_to_result(g)).collect()).collect() };
     let mut b = site::reader::Builder::default();
     if let Some((_, items)) = samples {
@@ -181,6 +182,26 @@ pub fn run_create(ctx: &Ctx, cs: &CallSet, spec: &CliSpec, samples: &Option<(boo
         std::fs::write(&path, &bytes).unwrap(); files.push(path.clone());
         args.push(path);
         cli::run_sfs(&ctx.sfs_bin, &args, &[])
+    } else if let Some(k) = spec.transport.strip_prefix("fifo") {
+        // a named pipe given as the input path: the first write delivers `k` bytes, the rest follows after a pause
+        let k: usize = k.parse().unwrap_or(1).min(bytes.len());
+        let path = format!("{}/tmp/{uniq}.fifo", ctx.work);
+        let _ = std::fs::remove_file(&path);
+        if !std::process::Command::new("mkfifo").arg(&path).status().map(|s| s.success()).unwrap_or(false) { return None; }
+        files.push(path.clone());
+        args.push(path.clone());
+        let data = bytes.clone();
+        // opened read+write so that the open never blocks; the writer is detached (a reader that never opens the pipe must not hang the harness)
+        std::thread::spawn(move || {
+            use std::io::Write;
+            if let Ok(mut f) = std::fs::OpenOptions::new().read(true).write(true).open(&path) {
+                std::thread::sleep(std::time::Duration::from_millis(60));
+                let _ = f.write_all(&data[..k]); let _ = f.flush();
+                std::thread::sleep(std::time::Duration::from_millis(160));
+                let _ = f.write_all(&data[k..]);
+            }
+        });
+        cli::run_sfs(&ctx.sfs_bin, &args, &[])
     } else { cli::run_sfs(&ctx.sfs_bin, &args, &bytes) };
     for f in files { let _ = std::fs::remove_file(f); }
     Some(out)
@@ -204,6 +225,26 @@ pub fn eval_cli(ctx: &Ctx, a: &[&str]) -> Option<String> {
         Some(o) => Some(canon(&o)),
         None => Some("UNBUILDABLE".into()),
     }
+}
+
+/// `ct.create container cols samples project strict precision records hexbytes` : the binary on exactly these bytes (stdin)
+pub fn eval_bytes(ctx: &Ctx, a: &[&str]) -> Option<String> {
+    let bytes = parse_hex(a[7]);
+    let samples = parse_samples(a[2]);
+    let project = parse_project(a[3]);
+    let precision = if a[5] == "-" { None } else { a[5].parse().ok() };
+    std::fs::create_dir_all(format!("{}/tmp", ctx.work)).ok();
+    let mut files = Vec::new();
+    let args = create_args(&samples, &project, a[4] == "1", precision, 4, &ctx.work, &uniq_of(a), &mut files);
+    let o = cli::run_sfs(&ctx.sfs_bin, &args, &bytes);
+    for f in files { let _ = std::fs::remove_file(f); }
+    Some(canon(&o))
+}
+
+/// the request line of a byte-level case for a call set in a given container and BGZF layout
+pub fn bytes_case(cs: &CallSet, container: &str, layout: u64, cols: &str, samples: &str, project: &str, strict: &str, precision: &str, records: &str) -> Option<String> {
+    let bytes = container_bytes(cs, container, layout)?;
+    Some(format!("ct.create\t{container}\t{cols}\t{samples}\t{project}\t{strict}\t{precision}\t{records}\t{}", hex(&bytes)))
 }
 
 /// `c12.same extras cols samples project strict precision records` : all containers x transports x threads x layouts x repeats
@@ -239,6 +280,20 @@ pub fn eval_same(ctx: &Ctx, a: &[&str]) -> Option<String> {
                 }
             }
         }
+    }
+    // a named pipe as the input path, the writer pausing after the first 1 / 2 / 20 bytes (small call sets only: the pipe must hold the rest)
+    for (ci, container) in ["vcf", "vcfgz", "bcf", "rawbcf"].into_iter().enumerate() {
+        let len = container_bytes(&cs, container, layouts[0]).map(|b| b.len()).unwrap_or(usize::MAX);
+        if len > 60000 { continue; }
+        let first_len = [1usize, 2, 20, 1][ci];
+        let tr = format!("fifo{first_len}");
+        let spec = CliSpec { container, transport: &tr, threads: 4, layout: layouts[0] };
+        let o = match run_create(ctx, &cs, &spec, &samples, &project, a[4] == "1", precision, &format!("{u}f{ci}")) { Some(o) => o, None => continue };
+        let key = format!("{}|{}", cli::class(&o), String::from_utf8_lossy(&o.stdout));
+        n += 1;
+        if let Some((k, w)) = &first { if *k != key {
+            return Some(format!("DIFF {container}/{tr} vs {w}: [{}] vs [{}]", key.replace('\n', "\\n").chars().take(300).collect::<String>(), k.replace('\n', "\\n").chars().take(300).collect::<String>()));
+        } }
     }
     let (k, _) = first?;
     Some(format!("SAME {n} {}", k.replace('\n', "\\n")))
